@@ -68,6 +68,13 @@ def run (ctx):
     ca = [h for h in hs if h.ast.type is None or norm(h.ast.type) in ('Exception', 'BaseException')]
     ctx.ob('R-CONTAIN', cyc, "a task that raises is caught by the scheduler", bool(ca) and not g.raises_out(n), "catch-all around t.execute()" if ca else
            "t.execute() is not enclosed by a catch-all: one task's exception ends Scheduler.run for all tasks", (mod, n.ast), 'D2')
+    if ca and not g.raises_out(n):
+      # ... whatever it raises: a task step is arbitrary code (sys.exit() in a component's task, GeneratorExit); `except Exception:` lets
+      # those end cycle() - and with it Scheduler.run for every task
+      total = [h for h in ca if h.ast.type is None or norm(h.ast.type) == 'BaseException']
+      ctx.ob('R-CONTAIN', cyc, "no failure of a task step ends the scheduler - not only Exception subclasses", bool(total), "bare except / BaseException" if total else
+             "the widest handler around t.execute() is `except %s`: a task that raises SystemExit, KeyboardInterrupt or another BaseException escapes cycle() and ends Scheduler.run - every other task, sleeper and timer stops"
+             % norm(ca[0].ast.type), (mod, ca[0].ast), 'D2')
     for h in si + ca:
       r = g.reachable(h, exc=False)
       rq = [x for x in requeue if x in r]; again = [x for x in tex if x in r]
